@@ -841,7 +841,6 @@ func (w *efWalker) walk(b *cfg.Block, idx int, st absState, t *tracked, path []s
 		w.seen[key] = true
 	}
 	ef := w.ef
-	f := w.src.f
 	for i := idx; i < len(b.Nodes); i++ {
 		n := b.Nodes[i]
 		isCond := len(b.Succs) == 2 && i == len(b.Nodes)-1
@@ -887,7 +886,7 @@ func (w *efWalker) walk(b *cfg.Block, idx int, st absState, t *tracked, path []s
 				case !lhsTracked && rhsMentions && lok:
 					if lp.field {
 						// stored into a field: sticky-error idiom (the owner tests the field)
-						if ef.fieldTestedSomewhere(f, lp) || isErrorType(ef.info.TypeOf(lhs)) {
+						if isErrorType(ef.info.TypeOf(lhs)) {
 							w.idiom("stored in error field " + lp.String())
 							return
 						}
@@ -988,6 +987,10 @@ func (w *efWalker) mentionsTracked(n ast.Node, t *tracked) bool {
 func (ef *errFlow) fieldTestedSomewhere(f *efFunc, p place) bool {
 	fieldName := p.path[strings.LastIndex(p.path, ".")+1:]
 	for _, g := range ef.funcs {
+		// only methods of the type that owns the field count (the owner re-tests its sticky error)
+		if g.recv == nil || p.v == nil || !types.Identical(g.recv.Type(), p.v.Type()) {
+			continue
+		}
 		found := false
 		ast.Inspect(g.body, func(x ast.Node) bool {
 			be, ok := x.(*ast.BinaryExpr)
@@ -1035,6 +1038,12 @@ func (w *efWalker) atReturn(rs *ast.ReturnStmt, st absState, t *tracked, path []
 	if w.mentionsTracked(rs, t) {
 		w.idiom("returned")
 		return
+	}
+	for _, p := range t.places {
+		if p.field && ef.fieldTestedSomewhere(f, p) {
+			w.idiom("sticky error field " + p.String() + " (tested by the owner's methods)")
+			return
+		}
 	}
 	if len(errIdx) == 0 {
 		w.fail(fmt.Sprintf("function returns without an error result while the error is %s", st), path, rs)
